@@ -5,6 +5,9 @@ V = os.path.dirname(os.path.dirname(os.path.abspath(__file__)))
 TECH = "contract-based deductive verification: CBMC 6.11 function/loop contracts (goto-instrument --dfcc enforce/replace) on the injected real sources"
 
 CLAIMS = {
+ 'C17': dict(cat='other', ref='DESIGN.md §10',
+   text='BOUNDED stand-in, forwarding part: the real jls_copy over source files of up to 2 chunks (any non-definition tag, metadata, payload <= 56 bytes), closed or unclosed with a torn tail: every readable FSR data / annotation / UTC / user-data chunk is re-issued through the writer with exactly the stored fields, once and in file order, structural chunks are not re-issued, source and destination are closed on every path, an unclosed original is copied successfully',
+   note='all callees are models; definition chunks are excluded; that the re-issued calls produce a file that reads back the same rests on C01/C11/C12/C13; known finding F35 (blocks stored only as summaries are not re-created: the copy differs) is reported by the variant unit B-copy-forward-F35; F28 and F34 fixed'),
  'C01': dict(cat='other', ref='DESIGN.md §10',
    text='mixed: contract proofs for wr_data (block write/omission) and jls_buf_realloc; BOUNDED stand-ins (CBMC, unwinding assertions, real functions) for the sample packer jls_wr_fsr_data/wr_data_inner (any packer state, one write at any relative position, blocks of 2-4 bytes), the read window jls_core_fsr (signals of up to 3 blocks, every first sample id, every window, sub-byte unaligned starts, windows ending at the last sample) and the block lookup jls_core_fsr_seek (3 index levels); one arbitrary stored/returned sample compared bit for bit, lengths and block tiling checked',
    note='bounded units are labelled bounded in the evidence and are not proofs; block cache / omitted-block reconstruction / fsr_length are models in the read unit; composition writer->file->reader is argued, not machine-checked; known finding F23 (signals shorter than one summary entry are unreadable) is reported by the variant unit B-core-fsrseek-F23; defects F17 F32 found by these units and fixed'),
@@ -58,7 +61,6 @@ CLAIMS = {
 NOT_APPLICABLE = {
  'C03': 'crash-point enumeration and functional correctness of the repair functions cannot be expressed as contracts (unbounded on-disk list structure, every interrupted history); the decidable parts (link-after-chunk: U-core-upditem precondition, END-last control shape: U-rd-open-shape) are reported under C14/C19',
  'C06': 'the schedule quantifier is outside contract reasoning; the sequential premises (marshalling round trip through the real queue and dispatch loop, lockset discipline) are built as bounded units (specs/twr) but exceed the memory limit in this round, so they are not claimed',
- 'C17': 'no unit: jls_copy is a single 150-line loop over callee results; a forwarding unit needs models of ten callees and was not reached in this round; the plan and the known gaps (omitted blocks not re-created, chunks within 11 bytes below the buffer size skipped, leaks on error paths) are in DESIGN.md',
  'C07': 'liveness/deadlock/flush-close semantics under every schedule: CBMC contracts have no interleaving or fairness semantics; the sequential facts are reported under C06/C10 where built',
 }
 
